@@ -314,7 +314,7 @@ var (
 )
 
 func getPubWorld() *pubWorld {
-	pubOnce.Do(func() { thePub = &pubWorld{hostile: newAccount(), aes: crypto.NewAES()} })
+	pubOnce.Do(func() { thePub = &pubWorld{hostile: newAccount(), aes: newAES()} })
 	return thePub
 }
 
